@@ -41,6 +41,27 @@ BUILT = {
             'differ. Exhaustive over the catalogue, sampled beyond it.',
             'Trusts CPython numeric semantics as the reference; shift/exponent magnitudes bounded.',
             'DESIGN.md 3/C20'),
+    'C14': ('exhaustive small-scope enumeration of operation histories + hypothesis histories, lock-step with a Python list model',
+            'Every history of up to 4 (quick) / 5 (thorough) operations over a 27-op alphabet (append, insert, extend, +=, item '
+            'assignment, del by index and slice, pop, remove, reverse, clear, continue-on-slice, refused non-dict rows and '
+            'out-of-range indices) from three initial grids is applied to a Grid and to a list of the same row objects; outcomes '
+            'per step and len/iteration/indexing/slicing/membership/count/index afterwards must agree. Hypothesis adds 50-step '
+            'histories observed after every step.',
+            'Trusts the Python list as the reference; rows hold scalars only.',
+            'DESIGN.md 3/C14'),
+    'C15': ('exhaustive small-scope enumeration of operation histories + hypothesis histories, scan-based id model',
+            'Same histories as C14 over rows with str/int/Ref ids, duplicate ids, ids with equal string forms, rows without id, '
+            'slice- and filter-derived grids; afterwards grid[key] and grid.get(key, default) for ten str/Ref keys must return a '
+            'row currently in the grid with that id string, or KeyError/default iff none has it.',
+            'With duplicate ids any current matching row is accepted.',
+            'DESIGN.md 3/C15'),
+    'C16': ('exhaustive small-scope enumeration of operation histories + hypothesis histories against a reference ordered-map model',
+            'All histories up to depth 3 over 3-4 keys and every position argument from six initial maps, for SortableDict and '
+            'MetadataObject, are replayed on the real object and on a list-of-pairs model of the documented semantics; '
+            'outcomes, items(), at/value_at/index, uniqueness and "rejected op changes nothing" are compared; Hypothesis adds '
+            '40-step histories incl. extend/pop/setdefault/clear and checks the order seen by the ZINC/JSON writers.',
+            'Model semantics for relocation by numeric index follow the implementation (doc-string silent).',
+            'DESIGN.md 3/C16'),
     'C18': ('exhaustive enumeration of version-string pairs/triples + hypothesis strings against an independent reference key',
             'All 864,900 ordered pairs over 930 version strings (padding x suffix) are compared with an independently written '
             'reference order for trichotomy, six-operator agreement, string operands on both sides, hash/set/dict behaviour, '
